@@ -4,8 +4,9 @@ import re
 
 from vlib import REPO
 
-PKGS = ["./internal/smtpconn/pool/"]
+PKGS = ["./internal/smtpconn/pool/", "./internal/target/remote/"]
 POOL = "internal/smtpconn/pool/pool.go"
+REMOTE = "internal/target/remote"
 FN = {"CleanUp": "c", "Get": "g", "Return": "r", "Close": "s"}
 # ordered synchronisation skeleton the model (Model/Pool.lean) was written for: per function, the kinds of
 # the points in source order (lock acquisition, map-range iteration, close, drain receive, select, go, stop send)
@@ -37,10 +38,15 @@ def rewrite(src):
         elif re.match(r"^func ", line):
             fn = None
         line = line.replace("time.Now()", "vcoop.Now()")
+        ind = re.match(r"^(\s*)", line).group(1)
         if fn is None:
+            # helper functions (none on the tree the model mirrors): no yields, but a `go x.Close()` must still
+            # become a scheduled task, otherwise the connection's callbacks run outside the scheduler
+            m = re.match(r"^\s*go (\w+)\.Close\(\)\s*$", line)
+            if m:
+                line = '%svcoop.Go("cc", func() { %s.Close() })' % (ind, m.group(1))
             out.append(line)
             continue
-        ind = re.match(r"^(\s*)", line).group(1)
         if re.match(r"^\s*p\.keysLock\.Lock\(\)\s*$", line):
             hit("lock")
             out.append('%svcoop.Lock(&p.keysLock, "%s.lock")' % (ind, fn))
@@ -92,11 +98,36 @@ def rewrite(src):
     return res, counts
 
 
+def reclock(src):
+    """Route the clock of a file of the remote target (every file that touches mxConn.lastUseAt) to vcoop: the
+    harness of the real connection type moves the time by hand.  Purely textual; nothing else is changed."""
+    new = src.replace("time.Now()", "vcoop.Now()").replace("time.Since(", "vcoop.Since(")
+    if new == src:
+        return None
+    new = re.sub(r"(?m)^(package \w+[^\n]*\n)", r'\1import "github.com/foxcpp/maddy/internal/verifshim/vcoop"\n', new, count=1)
+    if re.search(r'(?m)^\s*(import\s+)?"time"\s*$', new):
+        new += "\nvar _ = time.Now // (the overlay may have removed the last use of the package)\n"
+    return new
+
+
 def instrumented(c):
     src = open(os.path.join(REPO, POOL)).read()
     new, skel = rewrite(src)
     p = os.path.join(c.work, "pool_instrumented.go")
     open(p, "w").write(new)
+    extra = {}
+    rdir = os.path.join(REPO, REMOTE)
+    for fn in sorted(os.listdir(rdir)):
+        if not fn.endswith(".go") or fn.endswith("_test.go"):
+            continue
+        rsrc = open(os.path.join(rdir, fn)).read()
+        if "lastUseAt" not in rsrc:
+            continue
+        rnew = reclock(rsrc)
+        if rnew is not None:
+            rp = os.path.join(c.work, "remote_reclocked_" + fn)
+            open(rp, "w").write(rnew)
+            extra[os.path.join(rdir, fn)] = rp
     if not any(o.get("kind") == "T1" for o in c.obligations):
         ok = skel == EXPECT
         c.obligations.append(dict(
@@ -104,7 +135,8 @@ def instrumented(c):
             kind="T1", ok=ok, detail="" if ok else "expected %r got %r" % (EXPECT, skel)))
         if not ok:
             c.proof_broken.append("pool.go synchronisation skeleton changed: " + repr(skel))
-    return {os.path.join(REPO, POOL): p}
+    extra[os.path.join(REPO, POOL)] = p
+    return extra
 
 
 def harness(c, n, replay_ops=None, race=False, name=None, env=None):
